@@ -190,6 +190,11 @@ Archiver Archiver::CreateRead(std::istream& streamReadPtr, const version_info_t&
     uint32_t numClasses = 0;
     arc.ArchiveUInt32(numClasses);
 
+    if (numClasses > arc.GetRemainingSize() / 8) {
+        // every object of the table takes at least one 8-byte record in what follows
+        throw ArchiveErrors::InvalidArchiveHeader();
+    }
+
     arc.classpointerList.SetNumObjects(numClasses);
 
     return arc;
@@ -601,6 +606,22 @@ void Archiver::WriteStreamSize(std::streamsize size)
 bool Archiver::ObjectPositionExists(const void* obj) const noexcept
 {
     return classpointerList.IndexOfObject(const_cast<void*>(obj)) != 0;
+}
+
+size_t Archiver::GetRemainingSize()
+{
+    CheckRead();
+
+    const std::streampos cur = readStream->tellg();
+    readStream->seekg(0, std::ios_base::end);
+    const std::streampos end = readStream->tellg();
+    readStream->seekg(cur);
+
+    if (cur < 0 || end < cur) {
+        return 0;
+    }
+
+    return static_cast<size_t>(end - cur);
 }
 
 void Archiver::CheckRead()
